@@ -97,6 +97,8 @@ def rule_bits(c, prog):
 
 
 def run(c, prog):
+    from . import C01 as _C01s
+    _C01s.rule_sstr_index(core.Alias(c, "C03"), prog)     # the index a PROP chunk stores is the string's position in SSTR: otherwise a decoder recovers another instance's data
     from . import C16 as _C16
     from sa import db as _dbm
     _C16.rule_sername(core.Alias(c, "C03"), prog, _dbm.Database())     # `one PROP chunk per property name per class`: two canonical properties sharing a serialized name give two chunks of that name
